@@ -45,14 +45,18 @@ def main():
         notes = open(os.path.join(src, "notes.md")).read() if os.path.exists(os.path.join(src, "notes.md")) else ""
         pkg = re.search(r"^package (\w+)", demo, re.M).group(1)
         base = pkg[:-5] if pkg.endswith("_test") else pkg
-        cands = sorted(pkg_dirs(wt).get(base, []))
-        if not cands:
-            raise SystemExit(f"no package dir for {pkg}")
-        d = cands[0]
-        if len(cands) > 1:
-            for c in cands:
-                if c != "." and c in notes:
-                    d = c
+        m = re.match(r"DEMO:\s*dir=(\S+)", notes)
+        if m and os.path.isdir(os.path.join(wt, m.group(1))):
+            d = m.group(1)  # the sub-agent named the package directory (also covers test-only packages)
+        else:
+            cands = sorted(pkg_dirs(wt).get(base, []))
+            if not cands:
+                raise SystemExit(f"no package dir for {pkg}")
+            d = cands[0]
+            if len(cands) > 1:
+                for c in cands:
+                    if c != "." and c in notes:
+                        d = c
         tests = re.findall(r"^func (Test\w+)\(", demo, re.M)
         runre = "^(" + "|".join(tests) + ")$"
         demo_path = os.path.join(wt, d, "zz_seed_demo_test.go")
